@@ -1,16 +1,20 @@
 """
 C19 — copies of library objects are independent, equivalent and safely destroyable.
 
-Proof: lean/Sqfs/Props/C19.lean over the object-heap model (Sqfs/Model/Obj.lean: sqfs_grab/drop/copy, one
-description per copy hook) and the per-kind state machines (Sqfs/Model/ObjKinds.lean).
+Proof: lean/Sqfs/Props/C19.lean over the object-heap model (Sqfs/Model/Obj.lean: sqfs_grab/drop/copy, one description per
+copy hook, slot operations, mixed histories), the table state machines (Sqfs/Model/ObjKinds.lean) and the state part of the
+reader hooks (Sqfs/Model/C19Readers.lean over C10's models of meta_reader.c / data_reader.c).
 Tie: harness/h_c19.c runs the real objects (ASan+UBSan+LeakSanitizer) through seeded scenarios
-    history on {o, t1, t2}; copy (or copy with the k-th allocation failing); interleaved operations on o (mirrored
-    on twin t1) and on the copy c (mirrored on twin t2); drops of o and c in either order, with or without the
-    user's own file/compressor references released first
-for all 13 kinds, and prints a behavioural probe of every fresh copy (header fields, buffer slots duplicated /
-aliased / trimmed, references grabbed / deep-copied).  The same scripts run through `sqfsmodel c19 sim` (hooks as
-repaired) and `sim-current` (hooks of the pinned tree); control-line answers (probe, refcounts of the shared file
-and compressor after every drop) and the outcome class are compared, o≡t1 and c≡t2 are compared line by line.
+    history on {o, t1, t2}; copy (or copy with the k-th acquisition failing: every k); operations on the copy c (mirrored on
+    twin t2) and on o (mirrored on t1), interleaved; drops of o and c in either order, with or without the user's own
+    file/compressor references released first; a state hash of all four objects after every step
+for all 13 kinds (+ a file opened for writing), and prints a behavioural probe of every fresh copy (header fields, every
+buffer slot duplicated / aliased / trimmed / contents differ, the struct's plain fields, references grabbed / deep-copied).
+The same scripts run through `sqfsmodel c19 sim` (hooks as in /repo), `sim-mix`, `sim-current` (hooks before the fix commits);
+compared: control-line answers (probe, refcounts of the shared file and compressor after every drop), outcome class,
+independence/equivalence relations of the state hashes vs the model's `view`; o≡t1 and c≡t2 line by line and by state hash;
+`describe <kind>` vs everything the probe saw; `copystate` (drCopy/mrCopy on dumped real states); table answers (`tbl`).
+Everything that evaluates nothing, or that a helper does not understand, is a failure of the check (CheckFailure), not a pass.
 """
 import json, os, re, subprocess, zlib
 from concurrent.futures import ThreadPoolExecutor
@@ -21,10 +25,11 @@ MODULE = "Sqfs.Props.C19"
 REQUIRED = ["Sqfs.C19." + t for t in (
     "desc_wellformed", "copy_wellformed", "copy_wellformed_all", "copy_balanced", "copy_fail_safe", "release_safe", "release_safe_either_order",
     "no_leak", "copy_then_release_restores", "refcount_exact", "copy_equiv", "copy_same_buffer_sizes", "copy_independent", "copy_buffers_disjoint", "constructed_balanced", "grab_balanced",
-    "copy_equiv_idTable", "copy_equiv_fragTable")]
+    "copy_equiv_idTable", "copy_equiv_fragTable", "copy_fail_restores", "ops_release_safe", "copy_independent_mixed",
+    "copy_equiv_dataReader", "copy_equiv_metaReader", "table_fill_is_adds", "envHeap_balanced")]
 COMPS = ["gzip", "xz", "lzma", "lz4", "zstd"]
 ENV_KINDS = ("meta", "dir", "data", "xattr")
-WRAP = "-Wl,--wrap=malloc,--wrap=calloc,--wrap=realloc"
+WRAP = "-Wl,--wrap=malloc,--wrap=calloc,--wrap=realloc,--wrap=dup,--wrap=deflateInit2_,--wrap=inflateInit_,--wrap=ZSTD_createCCtx"
 # memcpy(NULL, NULL, 0) in array_init_copy of an empty array is flagged by UBSan's nonnull-attribute check; it is
 # harmless on every libc and not what C19 is about, so that one check is off for this property's builds.
 LIBFLAGS = ["-fno-sanitize=nonnull-attribute"]
@@ -38,61 +43,89 @@ def build(ctx):
     return harness, gen
 
 
-def make_images(ctx, gen, comps):
-    """images made by the working tree's gensquashfs: one per compressor (files with full blocks, tail blocks,
-    fragments, sparse blocks, xattrs, nested directories), one without xattrs, one with a damaged data block"""
-    d = ctx.scratch / "img"
-    d.mkdir(exist_ok=True)
-    r = ctx.rng
-    tree = d / "tree"
-    (tree / "d1" / "d2").mkdir(parents=True, exist_ok=True)
-    (tree / "e").mkdir(exist_ok=True)
-    files = {
+def tree_files(r, B):
+    """file contents for an image with block size B: full blocks, tail blocks, fragments, sparse blocks, a short block of its own"""
+    return {
         "small.txt": b"hello world\n" * 5,
-        "big.bin": bytes(r.getrandbits(8) for _ in range(3 * 8192 + 777)),
-        "d1/mid.bin": bytes(r.getrandbits(4) for _ in range(2 * 8192 + 100)),
-        "d1/d2/tail.bin": b"A" * 8192 + b"xyz" * 100,
-        "e/zero.bin": b"\0" * (5 * 8192),
+        "big.bin": bytes(r.getrandbits(8) for _ in range(3 * B + 777)),
+        "d1/mid.bin": bytes(r.getrandbits(4) for _ in range(2 * B + 100)),
+        "d1/d2/tail.bin": b"A" * B + b"xyz" * 100,
+        "e/zero.bin": b"\0" * (5 * B),
         "e/empty": b"",
-        "e/hole.bin": b"Q" * 8192 + b"\0" * 8192 + b"R" * 300,
+        "e/hole.bin": b"Q" * B + b"\0" * B + b"R" * 300,
         # exactly one full block; a short file forced into a data block of its own (sort file: dont_fragment), so that
         # reading it leaves a *short* block in the block cache; two more files that share the fragment block
-        "full.bin": bytes((i * 7 + 3) % 251 + 1 for i in range(8192)),
+        "full.bin": bytes((i * 7 + 3) % 251 + 1 for i in range(B)),
         "short.bin": bytes((i * 5 + 11) % 251 + 1 for i in range(100)),
         "frag2.bin": bytes((i * 3 + 29) % 251 + 1 for i in range(3000)),
         "frag3.bin": bytes((i * 11 + 1) % 251 + 1 for i in range(2500)),
     }
-    for k, v in files.items():
-        (tree / k).write_bytes(v)
-    pack = ["dir / 0755 0 0", "dir /d1 0755 1000 1000", "dir /d1/d2 0755 0 0", "dir /e 0755 0 0"]
-    for i, k in enumerate(files):
-        pack.append("file /%s 0644 %d %d tree/%s" % (k, i % 3, (i * 7) % 5, k))
-    pack.append("slink /lnk 0777 0 0 small.txt")
-    (d / "pack.txt").write_text("\n".join(pack) + "\n")
+
+
+MANYX = 600      # xattr ids of the `manyx` image: more than 512, so the id table spans two metadata blocks
+
+
+def make_images(ctx, gen, specs):
+    """images made by the working tree's gensquashfs: one per (compressor, block size) in `specs` (files with full blocks,
+    tail blocks, fragments, sparse blocks, xattrs, nested directories), one without xattrs, one with more than 512 xattr ids,
+    one with a damaged data block.  Keys: `<comp>` for block size 8192, `<comp>@<bs>` otherwise."""
+    d = ctx.scratch / "img"
+    d.mkdir(exist_ok=True)
+    r = ctx.rng
+    env = ctx.san_env()
+    imgs, files = {}, None
+
+    def gensq(args, what):
+        rr = vlib.sh([str(gen)] + args, env=env, timeout=600)
+        if rr.returncode != 0:
+            raise vlib.CheckFailure("gensquashfs (working tree) failed for %s: %s" % (what, rr.stderr[-800:]))
+
     (d / "xa.txt").write_text(
         '# file: small.txt\nuser.a="hello"\nuser.b=0x0102030405\n\n# file: big.bin\nuser.a="hello"\nuser.b=0x0102030405\n\n'
         '# file: d1\nuser.comment="dir one"\nsecurity.selinux="system_u:object_r:x:s0"\n\n'
         '# file: e/zero.bin\nuser.long=0x' + "000102030405060708090a0b0c0d0e0f" * 20 + "\n")
     (d / "sort.txt").write_text("0 [dont_fragment] short.bin\n")
-    env = ctx.san_env()
-    imgs = {}
-    for c in comps:
-        p = d / ("img_%s.sqfs" % c)
-        rr = vlib.sh([str(gen), "-c", c, "-b", "8192", "-F", str(d / "pack.txt"), "-D", str(d), "-A", str(d / "xa.txt"), "-S", str(d / "sort.txt"), "-f", "-q", str(p)], env=env, timeout=120)
-        if rr.returncode != 0:
-            raise vlib.CheckFailure("gensquashfs (working tree) failed for %s: %s" % (c, rr.stderr[-800:]))
-        imgs[c] = p
+    trees = {}
+    for c, B in specs:
+        if B not in trees:
+            tree = d / ("tree%d" % B)
+            (tree / "d1" / "d2").mkdir(parents=True, exist_ok=True)
+            (tree / "e").mkdir(exist_ok=True)
+            fl = tree_files(r, B)
+            for k, v in fl.items():
+                (tree / k).write_bytes(v)
+            pack = ["dir / 0755 0 0", "dir /d1 0755 1000 1000", "dir /d1/d2 0755 0 0", "dir /e 0755 0 0"]
+            for i, k in enumerate(fl):
+                pack.append("file /%s 0644 %d %d tree%d/%s" % (k, i % 3, (i * 7) % 5, B, k))
+            pack.append("slink /lnk 0777 0 0 small.txt")
+            (d / ("pack%d.txt" % B)).write_text("\n".join(pack) + "\n")
+            trees[B] = fl
+            if B == 8192:
+                files = fl
+        p = d / ("img_%s_%d.sqfs" % (c, B))
+        gensq(["-c", c, "-b", str(B), "-F", str(d / ("pack%d.txt" % B)), "-D", str(d), "-A", str(d / "xa.txt"), "-S", str(d / "sort.txt"), "-f", "-q", str(p)],
+              "%s block size %d" % (c, B))
+        imgs[c if B == 8192 else "%s@%d" % (c, B)] = p
+    if 8192 not in trees:
+        raise vlib.CheckFailure("image specs must contain a block size of 8192")
     p = d / "img_noxattr.sqfs"
-    vlib.sh([str(gen), "-c", "gzip", "-b", "8192", "-F", str(d / "pack.txt"), "-D", str(d), "-f", "-q", str(p)], env=env, timeout=120)
+    gensq(["-c", "gzip", "-b", "8192", "-F", str(d / "pack8192.txt"), "-D", str(d), "-f", "-q", str(p)], "noxattr")
     imgs["noxattr"] = p
+    # many xattr ids: one distinct key/value set per file
+    pack = ["dir / 0755 0 0"] + ["file /f%03d 0644 0 0 tree8192/small.txt" % i for i in range(MANYX)]
+    (d / "packx.txt").write_text("\n".join(pack) + "\n")
+    (d / "xax.txt").write_text("".join('# file: f%03d\nuser.n="%d"\n\n' % (i, i * 7919) for i in range(MANYX)))
+    p = d / "img_manyx.sqfs"
+    gensq(["-c", "gzip", "-b", "8192", "-F", str(d / "packx.txt"), "-D", str(d), "-A", str(d / "xax.txt"), "-f", "-q", str(p)], "manyx")
+    imgs["manyx"] = p
     # damaged image: first data block replaced by a valid zlib stream that inflates to 100 bytes only
-    (tree / "f.bin").write_bytes(bytes(r.getrandbits(4) for _ in range(2 * 8192 + 500)))
-    (d / "pack2.txt").write_text("file /f.bin 0644 0 0 tree/f.bin\n")
+    (d / "tree8192" / "f.bin").write_bytes(bytes(r.getrandbits(4) for _ in range(2 * 8192 + 500)))
+    (d / "pack2.txt").write_text("file /f.bin 0644 0 0 tree8192/f.bin\n")
     p = d / "img_damaged.sqfs"
-    rr = vlib.sh([str(gen), "-c", "gzip", "-b", "8192", "-F", str(d / "pack2.txt"), "-D", str(d), "-f", "-q", str(p)], env=env, timeout=120)
+    gensq(["-c", "gzip", "-b", "8192", "-F", str(d / "pack2.txt"), "-D", str(d), "-f", "-q", str(p)], "damaged")
     b = bytearray(p.read_bytes())
     z = zlib.compress(b"x" * 100, 9)
-    if rr.returncode != 0 or b[96] != 0x78:
+    if b[96] != 0x78:
         raise vlib.CheckFailure("cannot build the damaged-block image (data area does not start with a zlib stream at 96)")
     b[96:96 + len(z)] = z
     p.write_bytes(bytes(b))
@@ -145,7 +178,9 @@ def gen_op(r, kind, sizes):
         return r.choice(["read %s %d %d" % (p, r.choice([0, 1, 100, 8000, 8192, 8193, 16384, 20000, 30000]), r.choice([1, 100, 5000, 9000, 40000])),
                          "read %s %d %d" % (p, r.randint(0, 30000), r.randint(1, 20000)), "block %s %d" % (p, r.randint(0, 4)), "frag " + p])
     if kind == "xattr":
-        return r.choice(["readall %d" % r.randint(0, 4), "desc %d" % r.randint(0, 4), "first %d" % r.randint(0, 3), "readall 4294967295"])
+        top = sizes.get("xattr_ids", 4)
+        pick = lambda: r.choice([0, top - 1, top, r.randint(0, top), r.randint(max(0, top - 100), top)]) if top > 4 else r.randint(0, 4)
+        return r.choice(["readall %d" % pick(), "desc %d" % pick(), "first %d" % pick(), "readall 4294967295"])
     raise AssertionError(kind)
 
 
@@ -198,8 +233,8 @@ class Scenario:
 
     def op(self, t, op, mark=False):
         self.lines.append("%s %s" % (t, op))
-        w = op.split()[0]
-        self.mlines.append("%s %s%s x" % (t, w, "!" if mark else ""))
+        w = op.split()
+        self.mlines.append("%s %s%s %s" % (t, w[0], "!" if mark else "", " ".join(x[:40] for x in w[1:]) or "x"))
         return len(self.lines) - 1
 
     def text(self):
@@ -210,9 +245,23 @@ def gen_scenario(ctx, tag, kind, imgs, sizes, variant=None):
     r = ctx.rng
     damaged = variant == "damaged"
     ending = None
+    forced = False
     if kind == "comp":
-        name = variant or r.choice(COMPS)
-        args, mk = "comp %s %s" % (name, r.choice("cu")), name
+        forced = bool(variant) and variant.endswith("!")
+        name = (variant or r.choice(COMPS)).rstrip("!")
+        mode = "c" if forced else r.choice("ccu")
+        cfg = ""
+        if forced:
+            # a configuration far from the defaults, and (below) level-sensitive data through the copy right after the copy:
+            # a copy hook that re-creates codec state from anything but the original's options compresses differently
+            cfg = {"gzip": " 1 9 -", "xz": " 1 - -", "lzma": " 1 - -", "lz4": " - - 1", "zstd": " 2 - -"}[name]
+        elif mode == "c" and r.random() < 0.7:
+            # non-default configuration: the copy must compress with the original's level / window / strategy flags
+            level = {"gzip": r.randint(1, 9), "xz": r.randint(0, 6), "lzma": r.randint(0, 6), "lz4": "-", "zstd": r.randint(1, 19)}[name]
+            window = r.randint(9, 15) if name == "gzip" else "-"
+            flags = {"gzip": r.choice(["-", "-", 0x03, 0x1f]), "lz4": r.choice(["-", 1]), "lzma": r.choice(["-", 1])}.get(name, "-")
+            cfg = " %s %s %s" % (level, window, flags)
+        args, mk = "comp %s %s%s" % (name, mode, cfg), name
     elif kind in ("idtable", "fragtable"):
         args, mk = kind, kind
     elif kind == "xwr":
@@ -221,15 +270,37 @@ def gen_scenario(ctx, tag, kind, imgs, sizes, variant=None):
             variant = "shared"
     elif kind == "file":
         args, mk = "file %s" % imgs["gzip"], "file"
+    elif kind == "wfile":
+        args, mk = "wfile %s" % ctx.scratch, "file"
     else:
         ending = None
         if kind == "data" and variant and variant.startswith("cache:"):
             ending, variant = variant.split(":")[1], variant.split(":")[2]
+        dirflag = None
+        if kind == "dir" and variant and ":" in variant:
+            variant, dirflag = variant.split(":")
         img = imgs["damaged"] if damaged else imgs[variant or "gzip"]
-        args = "%s %s" % (kind, img) + (" %d" % r.choice([0, 1]) if kind == "dir" else "")
+        args = "%s %s" % (kind, img) + (" %s" % (dirflag if dirflag is not None else r.choice([0, 1])) if kind == "dir" else "")
         mk = kind
+        if variant == "manyx":
+            sizes = dict(sizes, xattr_ids=MANYX)
     s = Scenario(tag, kind, args, mk)
     s.damaged = damaged
+    if kind == "wfile":
+        # the copy hook of a file opened for writing refuses: sqfs_copy returns NULL, nothing changes, nothing leaks
+        for op in ["size", "read 0 16", "read 4 8"][:r.randint(0, 3)]:
+            i = s.op("o", op); j = s.op("t1", op); k = s.op("t2", op)
+            s.pairs += [(i, j), (i, k)]
+        s.ctl("views")
+        s.copy_at = len(s.lines)
+        s.ctl("copy")
+        s.ctl("views")
+        for op in ["size", "read 1 15"]:
+            i = s.op("o", op); j = s.op("t1", op)
+            s.pairs.append((i, j))
+        s.ctl("drop o")
+        s.expect_null = True
+        return s
 
     def hist_ops(n):
         if kind == "xwr":
@@ -255,8 +326,13 @@ def gen_scenario(ctx, tag, kind, imgs, sizes, variant=None):
         s.ctl("grab o"); extra["o"] += 1
     if r.random() < 0.3 and kind in ENV_KINDS:
         s.ctl("rcs")
+    s.ctl("views")
     s.copy_at = len(s.lines)
     s.ctl("copy")
+    s.ctl("views")
+    if kind in ("data", "meta"):
+        # the state of original and copy, for the function-level comparison with drCopy / mrCopy
+        s.ctl("dump o"); s.ctl("dump c")
     if r.random() < 0.2:
         s.ctl("grab c"); extra["c"] += 1
     alive = {"o": True, "c": True}
@@ -271,6 +347,15 @@ def gen_scenario(ctx, tag, kind, imgs, sizes, variant=None):
             for t, tw in (("c", "t2"), ("o", "t1")):
                 i = s.op(t, "read %s 0 40000" % pth); j = s.op(tw, "read %s 0 40000" % pth)
                 s.pairs.append((i, j))
+    if kind != "xwr" and not damaged:
+        # every scenario uses the copy at least once while both objects are alive (then the original)
+        first = hist_ops(1)[0]
+        if forced:
+            first = "blk " + hexs(bytes(r.choice(b"abcd") for _ in range(8000)))
+        for t, tw in (("c", "t2"), ("o", "t1")):
+            i = s.op(t, first); j = s.op(tw, first)
+            s.pairs.append((i, j))
+            s.ctl("views")
     post = hist_ops(r.choice([1, 3, 6, 12]))
     if kind == "xwr":
         post = post + ["flush"] * 2
@@ -296,10 +381,12 @@ def gen_scenario(ctx, tag, kind, imgs, sizes, variant=None):
             i = s.op(t, x, marked(x))
             j = s.op("t1" if t == "o" else "t2", x)
             s.pairs.append((i, j))
+            s.ctl("views")
         elif ev == "drop":
             while extra[x] > 0:
                 s.ctl("ungrab " + x); extra[x] -= 1
             s.ctl("drop " + x); alive[x] = False
+            s.ctl("views")
         elif ev == "env" and not env_dropped:
             s.ctl("dropenv"); env_dropped = True
     return s
@@ -314,6 +401,7 @@ def failcopy_variant(base, k, tag):
     s.copy_at = len(s.lines)
     s.failcopy = k
     s.ctl("failcopy %d" % k)
+    s.ctl("views")                      # the failed copy must leave what the original (and the twins) observe untouched
     # replay the original's later operations (on o and t1) so that damage to the original shows
     for idx in range(base.copy_at + 1, len(base.lines)):
         l = base.lines[idx]
@@ -345,8 +433,11 @@ def run_harness(ctx, harness, scenarios, jobs=6):
                 cur = []
             else:
                 cur.append(l)
-        if len(res) != len(ch):
-            raise vlib.CheckFailure("harness produced %d results for %d scenarios (rc=%s): %s" % (len(res), len(ch), p.returncode, p.stderr[-500:]))
+        if len(res) != len(ch) or p.returncode != 0 or cur:
+            raise vlib.CheckFailure("harness produced %d results for %d scenarios (rc=%s, %d stray lines): %s" % (len(res), len(ch), p.returncode, len(cur), p.stderr[-500:]))
+        for (ans, ex), sc in zip(res, ch):
+            if any(a == "bad-op" for a in ans):
+                raise vlib.CheckFailure("harness did not understand a line of scenario %s (%s): %r" % (sc.tag, sc.args.split()[0], [l for l, a in zip(sc.lines, ans) if a == "bad-op"][:3]))
         return res
     with ThreadPoolExecutor(max_workers=jobs) as ex:
         parts = list(ex.map(work, chunks))
@@ -357,7 +448,7 @@ def run_harness(ctx, harness, scenarios, jobs=6):
     return results
 
 
-PROBE_KEYS = ("rc", "destroy", "copy", "bufs", "refs", "self")
+PROBE_KEYS = ("rc", "destroy", "copy", "samehooks", "bufs", "refs", "self")
 
 
 def parse_probe(line):
@@ -383,6 +474,8 @@ def shape_of(probe):
 
 def run_model(ctx, mode, scenarios, shapes, fail_at=None):
     text = []
+    if len(scenarios) != len(shapes):
+        raise vlib.CheckFailure("run_model: %d scenarios, %d shapes" % (len(scenarios), len(shapes)))
     for s, sh in zip(scenarios, shapes):
         ml = [sh] + list(s.mlines)          # slots are populated from the start (only liveness matters before the copy)
         if fail_at is not None and s.failcopy:
@@ -395,12 +488,50 @@ def run_model(ctx, mode, scenarios, shapes, fail_at=None):
             res.append((cur, l.split()[1])); cur = []
         else:
             cur.append(l)
-    if len(res) != len(scenarios):
-        raise vlib.CheckFailure("model driver produced %d results for %d scenarios" % (len(res), len(scenarios)))
+    if len(res) != len(scenarios) or cur:
+        raise vlib.CheckFailure("model driver produced %d results for %d scenarios (%d stray lines)" % (len(res), len(scenarios), len(cur)))
+    for (ans, ex), sc in zip(res, scenarios):
+        if len(ans) != len(sc.mlines) + 2:
+            raise vlib.CheckFailure("model driver answered %d lines for %d of scenario %s" % (len(ans), len(sc.mlines) + 2, sc.tag))
+        if any(a == "bad-op" for a in ans):
+            raise vlib.CheckFailure("model driver did not understand a line of scenario %s (%s %s)" % (sc.tag, sc.args.split()[0], mode))
     return res
 
 
 CTL = ("copy", "failcopy", "drop", "grab", "ungrab", "rcs", "dropenv")
+TARGETS = ("o", "c", "t1", "t2")
+
+
+def parse_views(l):
+    d = {}
+    for w in l.split()[1:]:
+        k, v = w.split("=", 1)
+        d[k] = None if v == "-" else v
+    return d
+
+
+def view_relations(s, answers):
+    """What the `views` lines of one answer stream (real or model) say, as relations between consecutive lines:
+    chg = objects whose view changed although no operation was aimed at them in between (independence: must be none),
+    oc  = right after a successful copy: does the copy observe what the original observes (equivalence: must be True),
+    tw  = objects that differ from their identically driven twin (must be none; only meaningful for the real objects)."""
+    rels, prev, between, copied = [], None, set(), False
+    for i in range(min(len(answers), len(s.lines))):
+        w = s.lines[i].split()
+        if w[0] in TARGETS:
+            between.add(w[0])
+        elif w[0] in ("copy", "failcopy"):
+            copied = True
+        elif w[0] == "views":
+            if not answers[i].startswith("views "):
+                break                                       # crashed (model: absorbing crash state)
+            cur = parse_views(answers[i])
+            chg = sorted(t for t in TARGETS if prev and prev.get(t) and cur.get(t) and prev[t] != cur[t] and t not in between)
+            oc = (cur["o"] == cur["c"]) if copied and cur.get("o") and cur.get("c") else None
+            tw = [a for a, b in (("o", "t1"), ("c", "t2")) if cur.get(a) and cur.get(b) and cur[a] != cur[b]]
+            rels.append({"line": i, "chg": chg, "oc": oc, "tw": tw})
+            prev, between, copied = cur, set(), False
+    return rels
 
 
 def norm_ctl(l):
@@ -436,15 +567,31 @@ def compare(s, hres, mres, shape_len=1):
     hcls = hexit[0]
     if klass(hcls) != klass(mexit):
         return False, "outcome: real `%s` model `%s`" % (hcls, mexit)
+    # independence / equivalence as the model's `view` predicts them
+    hr = [(r["chg"], r["oc"]) for r in view_relations(s, hans)]
+    mr = [(r["chg"], r["oc"]) for r in view_relations(s, mans)]
+    m = min(len(hr), len(mr))
+    if hr[:m] != mr[:m]:
+        k = next(i for i in range(m) if hr[i] != mr[i])
+        return False, "views line %d: real (changed-untouched, copy==original) = %s, model %s" % (k, hr[k], mr[k])
     return True, ""
 
 
 def divergences(s, hres):
+    """the property's specification evaluated on what the real objects did: answers equal to the twin's, the copy observes
+    what the original observes, nothing changes that was not operated on"""
     hans = hres[0]
     bad = []
     for i, j in s.pairs:
         if i < len(hans) and j < len(hans) and hans[i] != hans[j]:
-            bad.append((i, s.lines[i], hans[i], s.lines[j], hans[j]))
+            bad.append((i, s.lines[i], hans[i][:200], s.lines[j], hans[j][:200]))
+    for r in view_relations(s, hans):
+        if r["chg"]:
+            bad.append((r["line"], "views", "the state of %s changed although no operation was aimed at it" % ",".join(r["chg"]), "", hans[r["line"]]))
+        if r["oc"] is False:
+            bad.append((r["line"], "views", "a fresh copy does not hold the state of the original", "", hans[r["line"]]))
+        if r["tw"]:
+            bad.append((r["line"], "views", "the state of %s differs from its identically driven twin" % ",".join(r["tw"]), "", hans[r["line"]]))
     return bad
 
 
@@ -464,6 +611,8 @@ def judge(ctx, s, hres, var, stats):
     mmain = var["repaired"]
     cl = lambda ans: next((norm_ctl(l) for l in ans if l.startswith("copy ok")), None)
     hp = cl(hans)
+    if getattr(s, "expect_null", False) and hp is not None:
+        return ("wfile:copied", "sqfs_copy of a file opened for writing returned an object (stdio_copy must refuse: the copy would share the write position / truncate state)", True)
     # the model of the hooks this tree has: the first variant whose fresh copy shows the facts the probe shows; without
     # a probe (failed copy) the first variant that explains the run
     if hp is not None:
@@ -514,7 +663,7 @@ def judge(ctx, s, hres, var, stats):
 
 def replay_dict(ctx, s, hres):
     tmp = str(ctx.scratch)
-    return {"scenario": s.text(), "kind": s.kind, "args": s.args, "answers": hres[0][-12:], "exit": hres[1],
+    return {"scenario": s.text(), "kind": s.kind, "args": s.args, "answers": [a[:300] for a in hres[0][-12:]], "exit": hres[1],
             "entry": {"kind": s.kind, "args": s.args.replace(tmp, "$TMP"), "model_kind": s.model_kind, "lines": s.lines, "mlines": s.mlines,
                       "pairs": [list(p) for p in s.pairs], "copy_at": s.copy_at, "failcopy": s.failcopy,
                       "shape": getattr(s, "fixed_shape", None), "base_probe": getattr(s, "base_probe", None)},
@@ -575,17 +724,43 @@ def run_tables(ctx, harness, n):
         s.ctl("copy")
         for _ in range(r.choice([2, 10, 30])):
             s.op(r.choice(["o", "c", "t1", "t2"]), gen_op(r, kind, {}))
-        scs.append(s)            # no drops: the copies are released by the harness's teardown (D6 would stop the run)
+        scs.append(s)            # no drops: the copies are released by the harness's teardown
+    # the limit of the id table (`used >= 0xFFFF`): tables filled to just below it, adds across it on original and copy
+    for j, fill in enumerate([0xFFFF - 2, 0xFFFF - 1, 0xFFFF] + ([r.randint(0xFFFF - 40, 0xFFFF)] if n > 100 else [])):
+        s = Scenario("tl%d" % j, "idtable", "idtable", "idtable")
+        for t in ("o", "t1", "t2"):
+            s.op(t, "fill %d" % fill)
+        for x in (4000000000, 5, 4000000001):
+            for t in ("o", "t1", "t2"):
+                s.op(t, "add %d" % x)
+        s.copy_at = len(s.lines)
+        s.ctl("copy")
+        for x in (4000000002, 4000000000, 4000000003, 65533, 4000000004):
+            for t in ("c", "o", "t2", "t1"):
+                s.op(t, "add %d" % x)
+        for idx in (0xFFFF - 3, 0xFFFF - 2, 0xFFFF - 1, 0xFFFF):
+            for t in ("c", "o"):
+                s.op(t, "get %d" % idx)
+        scs.append(s)
     return scs
 
 
 def check_tables(ctx, harness, scs, hres):
+    if len(scs) != len(hres):
+        raise vlib.CheckFailure("tables: %d scenarios, %d results" % (len(scs), len(hres)))
     text = "".join(s.text() for s in scs)
     out = ctx.driver(["c19", "tbl"], text)
+    if len(out) != sum(len(s.lines) + 2 for s in scs):
+        raise vlib.CheckFailure("table model answered %d lines, expected %d" % (len(out), sum(len(s.lines) + 2 for s in scs)))
     bad, k, total = [], 0, 0
     for s, (hans, hexit) in zip(scs, hres):
         m = out[k + 1:k + 1 + len(s.lines)]
         k += len(s.lines) + 2
+        if any(x == "bad-op" for x in m):
+            raise vlib.CheckFailure("table model did not understand a line of scenario %s" % s.tag)
+        # the run itself: clean exit, no leak, no descriptor left (the copies are released by the teardown)
+        if hexit[0] != "ok" or len(hans) != len(s.lines) + 1 or hans[-1] != "fds-at-end +0":
+            bad.append((s, len(s.lines) - 1, "exit %s after %d of %d lines" % (" ".join(hexit)[:200], len(hans), len(s.lines) + 1), "exit ok"))
         for i, l in enumerate(s.lines):
             if l.split()[0] in CTL or i >= len(hans):
                 continue
@@ -595,7 +770,90 @@ def check_tables(ctx, harness, scs, hres):
     return bad, total
 
 
+# --------------------------------------------------------------------------------------------- hook descriptions vs probe
+EXPECT = {"dup": {"dup"}, "trim": {"trim", "dup", "lost"},      # lost: array_init_copy of an allocated but empty array allocates nothing
+           "grab": {"grab"}, "deep": {"deep"}, "own": {"own"}}
+
+
+def check_descriptions(ctx, scs, hres):
+    """`sqfsmodel c19 describe <kind>` against everything the probe saw in this run, slot by slot; a slot that was NULL in
+    every scenario was never checked: that is a failure of the generators, not a pass"""
+    seen = {}
+    for s, (hans, _) in zip(scs, hres):
+        pl = next((l for l in hans if l.startswith("copy ok")), None)
+        if not pl:
+            continue
+        pr = parse_probe(pl)
+        d = seen.setdefault(s.model_kind, {"bufs": {}, "refs": {}, "self": {}, "n": 0})
+        d["n"] += 1
+        for key in ("bufs", "refs", "self"):
+            for i, st in enumerate(pr.get(key, "").split(",") if pr.get(key) else []):
+                d[key].setdefault(i, set()).add(st)
+    problems, facts = [], {}
+    for kind in COMPS + ["idtable", "fragtable", "file", "meta", "dir", "data", "xattr", "xwr"]:
+        line = ctx.driver(["c19", "describe", kind], "")
+        if len(line) != 1 or not line[0].startswith("kind=%s " % kind):
+            raise vlib.CheckFailure("describe %s: %r" % (kind, line))
+        desc = dict(w.split("=", 1) for w in line[0].split())
+        got = seen.get(kind)
+        if not got:
+            raise vlib.CheckFailure("no successful copy of kind %s in this run: its hook description was not compared with anything" % kind)
+        facts[kind] = {"copies": got["n"]}
+        for key in ("bufs", "refs", "self"):
+            acts = desc.get(key, "").split(",") if desc.get(key) else []
+            for i, act in enumerate(acts):
+                states = got[key].get(i, set()) - {"null"}
+                if not states:
+                    raise vlib.CheckFailure("%s: %s slot %d (described as `%s`) was NULL in every scenario of this run: never checked" % (kind, key, i, act))
+                if not states <= EXPECT.get(act, {act}):
+                    problems.append("%s: %s slot %d is described as `%s`, the probe saw %s" % (kind, key, i, act, sorted(states)))
+                if act == "trim" and "trim" not in states:
+                    raise vlib.CheckFailure("%s: %s slot %d (`trim`) was never seen with spare capacity: the size of the copy was never checked" % (kind, key, i))
+            if len(got[key]) > len(acts):
+                problems.append("%s: the probe reports %d %s slots, the description has %d" % (kind, len(got[key]), key, len(acts)))
+    return problems, facts
+
+
+def check_copystate(ctx, scs, hres):
+    """drCopy / mrCopy of the model applied to the state dumped from the real original must be the state dumped from the
+    real copy; the cache invariant (specification) must hold of every real original"""
+    pairs = []
+    for s, (hans, _) in zip(scs, hres):
+        if s.kind not in ("data", "meta") or s.failcopy or s.copy_at is None:
+            continue
+        idx = [i for i, l in enumerate(s.lines) if l in ("dump o", "dump c") and i < len(hans)]
+        if len(idx) == 2 and hans[idx[0]].startswith("dump o ") and hans[idx[1]].startswith("dump c "):
+            pairs.append((s, hans[idx[0]], hans[idx[1]]))
+    if not pairs:
+        raise vlib.CheckFailure("no state dump of a copied data / meta reader in this run")
+    out = ctx.driver(["c19", "copystate"], "".join(o + "\n" for _, o, _ in pairs))
+    if len(out) != len(pairs):
+        raise vlib.CheckFailure("copystate: %d answers for %d dumps" % (len(out), len(pairs)))
+    bad, st = [], {"data": 0, "meta": 0, "data_block_cached": 0, "frag_block_cached": 0, "short_block_cached": 0}
+    for (s, o, c), m in zip(pairs, out):
+        if m == "bad-op":
+            raise vlib.CheckFailure("copystate: the model driver could not parse `%s…`" % o[:120])
+        st[s.kind] += 1
+        if s.kind == "data":
+            kv = dict(w.split("=", 1) for w in o.split()[3:])
+            st["data_block_cached"] += kv["dblk"] != "N"
+            st["frag_block_cached"] += kv["fblk"] != "N"
+            st["short_block_cached"] += (kv["dblk"] != "N" and int(kv["dsz"]) < int(kv["bs"])) or (kv["fblk"] != "N" and int(kv["fsz"]) < int(kv["bs"]))
+        if m != c + " inv=1":
+            field = next((a.split("=")[0] for a, b in zip(m.split(), (c + " inv=1").split()) if a != b), "?")
+            bad.append((s, field, "inv=0" if m.endswith("inv=0") else "", (o.replace("dump o ", "dump c ", 1) != c)))
+    if st["data"] and not (st["data_block_cached"] and st["frag_block_cached"] and st["short_block_cached"]):
+        raise vlib.CheckFailure("copystate: no copied data reader had a cached data block, a cached fragment block and a short block: %s" % st)
+    return bad, st
+
+
 # --------------------------------------------------------------------------------------------- main
+def image_specs(ctx):
+    if ctx.quick():
+        return [("gzip", 8192), ("xz", 8192), ("gzip", 32768)]
+    return [("gzip", 8192), ("xz", 8192), ("lz4", 8192), ("zstd", 8192), ("lzma", 8192), ("gzip", 32768), ("gzip", 4096), ("zstd", 131072), ("xz", 16384)]
+
+
 def run(ctx):
     ok, problems = vlib.proof_gate(ctx, MODULE, REQUIRED)
     if not ok:
@@ -607,23 +865,27 @@ def run(ctx):
         if not lc_ok:
             ctx.violation("proof:C19:leanchecker", "leanchecker rejects the compiled proofs of Sqfs.Props.C19: " + lc_out[-600:], {"leanchecker": lc_out}, found_input=False)
     harness, gen = build(ctx)
-    comps = ["gzip", "xz"] if ctx.quick() else ["gzip", "xz", "lz4", "zstd", "lzma"]
-    imgs, files = make_images(ctx, gen, comps)
+    specs = image_specs(ctx)
+    imgs, files = make_images(ctx, gen, specs)
+    ikeys = [c if b == 8192 else "%s@%d" % (c, b) for c, b in specs]
     sizes = {"img": os.path.getsize(imgs["gzip"])}
     per_kind = 14 if ctx.quick() else 480
     scs = []
     plan = []
     for c in COMPS:
-        plan += [("comp", c)] * max(2, per_kind // 4)
+        plan += [("comp", c)] * max(3, per_kind // 4) + [("comp", c + "!")] * (1 if ctx.quick() else 10)
     for kind in ("idtable", "fragtable", "file", "xwr"):
         plan += [(kind, None)] * per_kind
+    plan += [("wfile", None)] * (3 if ctx.quick() else 20)
     for kind in ("meta", "dir", "data", "xattr"):
-        for c in comps:
-            plan += [(kind, c)] * max(3, per_kind // len(comps))
-    plan += [("xattr", "noxattr")] * 3 + [("data", "damaged")] * (4 if ctx.quick() else 20)
+        for k in ikeys:
+            n = max(4, per_kind // len(ikeys))
+            # directory readers: with and without the dot-entry cache, deterministically
+            plan += [(kind, "%s:%d" % (k, i % 2) if kind == "dir" else k) for i in range(n)]
+    plan += [("xattr", "noxattr")] * 3 + [("xattr", "manyx")] * (4 if ctx.quick() else 30) + [("data", "damaged")] * (4 if ctx.quick() else 20)
     for e in CACHE_ENDINGS:
-        for c in comps:
-            plan += [("data", "cache:%s:%s" % (e, c))] * (1 if ctx.quick() else 6)
+        for k in ikeys:
+            plan += [("data", "cache:%s:%s" % (e, k))] * (1 if ctx.quick() else 6)
     plan += [("xwr", "shared")] * (6 if ctx.quick() else 80)
     # corpus first
     cdir = vlib.CORPUS / "C19"
@@ -637,27 +899,37 @@ def run(ctx):
         scs.insert(j, scenario_from_entry(ctx, "c%d" % j, c, imgs))
     ctx.log("%d scenarios (%d corpus), harness built; running" % (len(scs), len(corpus)))
     hres = run_harness(ctx, harness, scs)
-    # allocation-failure variants: every k up to the number of allocations the successful copy made
+    # allocation-failure variants: every k up to the number of acquisitions (memory, descriptor, codec state) the
+    # successful copy made — all of them (quick tier too: which failure path leaks must not depend on the seed); for copies
+    # with very many allocations (xattr writer with many strings) the first six, the last two and two in between
     fscs = []
     for s, (hans, hexit) in zip(scs, hres):
-        cl = hans[s.copy_at] if s.copy_at < len(hans) else ""
+        cl = hans[s.copy_at] if s.copy_at is not None and s.copy_at < len(hans) else ""
         m = re.search(r"allocs=(\d+)", cl)
         if not m or not cl.startswith("copy ok"):
             continue
         n = int(m.group(1))
         ks = list(range(1, n + 1))
-        if ctx.quick():
-            if ctx.rng.random() > 0.35:
-                continue
-            ks = ctx.rng.sample(ks, min(2, len(ks)))
-        elif len(ks) > 6:
-            ks = ks[:4] + ctx.rng.sample(ks[4:], 2)
+        if len(ks) > 10:
+            ks = ks[:6] + sorted(ctx.rng.sample(ks[6:-2], 2)) + ks[-2:]
         for k in ks:
             f = failcopy_variant(s, k, "%sf%d" % (s.tag, k))
             f.base_probe = parse_probe(cl)
             fscs.append(f)
-    fres = run_harness(ctx, harness, fscs) if fscs else []
+    if not fscs:
+        raise vlib.CheckFailure("no allocation-failure variant could be derived (no successful copy?)")
+    fres = run_harness(ctx, harness, fscs)
     ctx.log("%d allocation-failure variants run" % len(fscs))
+    # every injected failure made the k-th acquisition inside sqfs_copy fail (the wrapper counted k calls or more in the
+    # successful run): a hook that still hands out an object ignored the failure
+    ignored = {}
+    for f, hr in zip(fscs, fres):
+        hans = hr[0]
+        if f.copy_at < len(hans) and hans[f.copy_at].startswith("copy ok"):
+            ignored[f.kind] = ignored.get(f.kind, 0) + 1
+            if ignored[f.kind] <= 2:
+                ctx.violation("%s:failcopy:ignored-failure" % f.kind, "%s: acquisition %d inside sqfs_copy failed (allocation / dup / codec state) and the hook "
+                              "still returned an object: `%s` [scenario %s]" % (f.kind, f.failcopy, hans[f.copy_at][:200], f.tag), replay_dict(ctx, f, hr), found_input=True)
     allsc = scs + fscs
     allres = hres + fres
     # the models (hooks repaired / partly repaired / current) on the same scripts.  Allocation-failure variants: the k-th
@@ -665,11 +937,12 @@ def run(ctx):
     # allocations), so the model is run for every failing step and the real outcome must be explained by one of them
     _, allvar = evaluate_models(ctx, allsc, allres)
     stats = {"outcomes": {}, "kinds": {}, "findings": {}}
-    nviol = 0
     pair_checks = 0
+    view_checks = 0
     for idx, (s, hr) in enumerate(zip(allsc, allres)):
         stats["kinds"][s.kind] = stats["kinds"].get(s.kind, 0) + 1
         pair_checks += sum(1 for i, j in s.pairs if i < len(hr[0]) and j < len(hr[0]))
+        view_checks += len(view_relations(s, hr[0]))
         v = judge(ctx, s, hr, allvar[idx], stats)
         if v:
             key, what, found = v
@@ -678,6 +951,27 @@ def run(ctx):
             stats.setdefault("reported", {})[fk] = stats.setdefault("reported", {}).get(fk, 0) + 1
             if stats["reported"][fk] <= 2:
                 ctx.violation(key, what, replay_dict(ctx, s, hr), found_input=found)
+    # operations must have *succeeded* on copies, or equal answers say nothing: per kind, at least one successful answer of
+    # the copy after the copy was made
+    okpat = {"comp": r"blk [1-9]", "idtable": r"(add|get) 0 ", "fragtable": r"(append|lookup|set) 0", "file": r"read 0 ", "meta": r"read 0 ",
+             "dir": r"list 0 [1-9]", "data": r"read [1-9]", "xattr": r"readall 0 [1-9]", "xwr": r"flush 0 "}
+    okcount = {k: 0 for k in okpat}
+    for s, (hans, _) in zip(scs, hres):
+        if s.kind in okpat:
+            okcount[s.kind] += sum(1 for l, a in zip(s.lines, hans) if l.startswith("c ") and re.match(okpat[s.kind], a))
+    for k, v in okcount.items():
+        if v == 0:
+            raise vlib.CheckFailure("no operation on a copied %s object succeeded in this run: the comparison with the twin says nothing" % k)
+    # hook descriptions against everything the probe saw
+    dprob, dfacts = check_descriptions(ctx, scs, hres)
+    for pr in dprob[:3]:
+        ctx.violation("describe:%s" % pr.split(":")[0], "hook description and probe disagree: " + pr, {"problem": pr}, found_input=False)
+    # state part of the reader hooks
+    cbad, cstat = check_copystate(ctx, scs, hres)
+    for s, field, inv, differs in cbad[:3]:
+        ctx.violation("copystate:%s" % s.kind, "%s: the state of the real copy is not what %s yields on the real original's state (first difference: %s%s)%s" % (
+            s.kind, "drCopy" if s.kind == "data" else "mrCopy", field, ("; the original violates the cache invariant: " + inv) if inv else "",
+            "; the copy's state differs from the original's" if differs else ""), replay_dict(ctx, s, hres[scs.index(s)]), found_input=differs)
     # tables: exact answers
     tscs = run_tables(ctx, harness, 30 if ctx.quick() else 1500)
     tres = run_harness(ctx, harness, tscs)
@@ -686,24 +980,37 @@ def run(ctx):
         ctx.violation("tbl:%s" % s.kind, "%s: answer of `%s` is `%s`, the state-machine model says `%s`" % (s.kind, s.lines[i], a, b),
                       replay_dict(ctx, s, ([a], ["-"])), found_input=False)
     nontrivial = sum(1 for s, hr in zip(allsc, allres) if any(l.startswith("copy ok") or l.startswith("copy NULL") for l in hr[0]))
+    copies_ok = sum(1 for s, hr in zip(allsc, allres) if any(l.startswith("copy ok") for l in hr[0]))
+    copies_null = sum(1 for s, hr in zip(allsc, allres) if any(l.startswith("copy NULL") for l in hr[0]))
+    # floors: a part that evaluated nothing is a failure of the check, not a pass
+    for name, val in (("table answers", ttotal), ("successful copies", copies_ok), ("failed copies", copies_null), ("twin comparisons", pair_checks),
+                      ("view relations", view_checks)):
+        if val <= 0:
+            raise vlib.CheckFailure("the check evaluated no %s" % name)
     ctx.cov.update({
         "evaluations": sum(len(s.lines) for s in allsc) + sum(len(s.lines) for s in tscs),
         "distinct_nontrivial": nontrivial,
-        "rule": "seeded scenarios per kind (5 compressors x {compress,uncompress}, id/fragment table, read-only file, xattr writer, meta/dir/data/xattr reader "
-                "over images made by the working tree's gensquashfs with %s, block size 8192, plus an image without xattrs and one with a damaged data block): "
+        "rule": "seeded scenarios per kind (5 compressors x {compress with random level/window/flags, uncompress}, id/fragment table, read-only file, "
+                "file opened for writing (copy refused), xattr writer, meta/dir/data/xattr reader over images made by the working tree's gensquashfs: %s, "
+                "plus an image without xattrs, one with %d xattr ids (two id blocks) and one with a damaged data block): "
                 "history of 0-12 operations, copy, 1-12 operations interleaved on original and copy, drops in shuffled order, optionally after the user's own "
-                "file/compressor references are gone; allocation-failure variants fail the k-th allocation inside sqfs_copy; non-trivial = scenario that reached sqfs_copy" % "/".join(comps),
-        "scenarios": len(allsc), "alloc_failure_variants": len(fscs), "twin_comparisons": pair_checks,
-        "table_answers_compared_with_model": ttotal,
+                "file/compressor references are gone; state hashes of all four objects after every step; every k-th acquisition inside sqfs_copy fails once "
+                "(malloc/calloc/realloc, dup, deflateInit2/inflateInit, ZSTD_createCCtx); non-trivial = scenario that reached sqfs_copy" % (
+                    ", ".join("%s/%d" % sp for sp in specs), MANYX),
+        "scenarios": len(allsc), "alloc_failure_variants": len(fscs), "twin_comparisons": pair_checks, "view_relations_checked": view_checks,
+        "copies_ok": copies_ok, "copies_null": copies_null, "successful_operations_on_copies": okcount,
+        "table_answers_compared_with_model": ttotal, "copystate": cstat, "descriptions_vs_probe": dfacts,
         "scenarios_per_kind": stats["kinds"], "real_outcomes": stats["outcomes"], "classified": stats["findings"],
         "samples": [{"scenario": s.text()[:600], "exit": hr[1]} for s, hr in list(zip(allsc, allres))[:2] + list(zip(allsc, allres))[-1:]],
-        "disagreements_checked": sum(stats["findings"].values()) + len(tbad),
+        "disagreements_checked": sum(stats["findings"].values()) + len(tbad) + len(cbad) + len(dprob),
     })
     return ctx.finish(LEVEL, trusted_extra=[
         "the copy hooks are modelled by descriptions (header/buffer/pointer/reference actions, failure path); the probe of harness/h_c19.c re-derives them from fresh copies on every run",
         "genuine heap behaviour (use-after-free, leaks, overflow) is observed through ASan/LSan only; UBSan's nonnull-attribute check is off (memcpy(NULL,NULL,0) in array_init_copy of an empty array)",
-        "answers of readers are compared between original/copy and identically driven twins, not predicted by the model (tables: predicted)"],
-        assumptions=["third-party codecs are deterministic functions of their input and configuration (checked per block by the twin comparison)"])
+        "answers of readers are compared between original/copy and identically driven twins; predicted by a model only for the tables; for the data and meta reader the state part of the hook is a model function compared with the real states",
+        "the per-kind state hashes of harness/h_c19.c (which fields and buffers make up the state of an object)"],
+        assumptions=["third-party codecs are deterministic functions of their input and configuration (checked per block by the twin comparison)",
+                     "operations of a kind read and write memory only through the object's own fields, buffers and owned sub-objects (observed: state hashes of the other objects, ASan)"])
 
 
 def replay(ctx, path):
@@ -716,7 +1023,7 @@ def replay(ctx, path):
     ctx.lean_build(["sqfsmodel"])
     harness, gen = build(ctx)
     ctx.rng = random.Random("%s/%d" % (ctx.prop, int(body.get("seed", 0))))     # same images as the run that found it
-    imgs, _ = make_images(ctx, gen, ["gzip", "xz", "lz4", "zstd", "lzma"])
+    imgs, _ = make_images(ctx, gen, [("gzip", 8192), ("xz", 8192), ("lz4", 8192), ("zstd", 8192), ("lzma", 8192), ("gzip", 32768), ("gzip", 4096), ("zstd", 131072), ("xz", 16384)])
     s = scenario_from_entry(ctx, "replay", rp["entry"], imgs)
     res, var = evaluate(ctx, harness, [s])
     print(s.text())
